@@ -362,7 +362,7 @@ from gpmc import interp as _ip
 SUBCHECKS = [
     Sub('ops', gen_ops, ev_ops, chunk=1, floor=80, timeout=1800, envs=8),
     Sub('chains', gen_chain, ev_chain_single, chunk=1, floor=1000, envs=6),
-    Sub('threads', _tg, _te, chunk=1, floor=3, poison=False, fresh=True, timeout=3600),
+    Sub('threads', _tg, _te, chunk=1, floor=3, poison=False, fresh=True, timeout=7200),
     Sub('interpreter', *_ip.make('C12', 'angles'), chunk=1, floor=5, poison=False),
 ]
 
